@@ -363,3 +363,62 @@ Print Assumptions C06_source_end_to_end_Verify.
 Print Assumptions C06_source_end_to_end_Verify_nil_error.
 Print Assumptions C06_source_end_to_end_NewVerifyStream.
 
+(* ============================== BLOCK 4: append to props/C06.v ============================== *)
+From SP Require Spec Msgpack AcceptDefs AcceptSignProofs SignAuthLocated GoAstOpen GoAstRecv GoAstProofs4b GoAstProofs5a GoAstProofs7c GoEndToEndAuth GoAstProofs8c.
+Section C06_source_end_to_end_read.
+Import Spec Msgpack AcceptDefs AcceptSignProofs SignAuthLocated GoLang GoLang2 GoAstOpen GoAstRecv GoAstProofs4b GoAstProofs7c GoEndToEndAuth GoAstProofs8c.
+Local Open Scope string_scope.
+
+Theorem C06_source_end_to_end_read_NewVerifyStream (c : crypto) (Hsha : forall x, List.length (sha512 c x) = 64%nat)
+        (vd : validator) (kr : sigring) (VV r KR : gval) (input : bytes)
+        (sg rdr : gval) (L : list sign_event) :
+  Forall event_ok L ->
+  (N.of_nat (List.length input) < 18446744073709551616)%N ->
+  rdr_bytes r = Some input ->
+  fst (run_func2 (ext_NVS c vd kr) f_saltpack_NewVerifyStream [VV; r; KR]) = ORet [sg; rdr; VNil] ->
+  exists pk obj,
+    sg = g_spk pk /\ rdr = g_cr_new obj /\
+    (headers_distinct pk L -> (len pk < 4294967296)%N ->
+     forall F bufs, (10 <= F)%nat -> (S (List.length input) < F)%nat -> Forall (fun b : bytes => b <> []) bufs ->
+       reads_auth_shape
+         (fun full => exists v nonce ps, In (EvAttached v nonce ps) L /\ full = map fst ps)
+         (AttBreak c vd pk L input)
+         (go_reads (gnc_ver c) F bufs rdr 0)).
+Proof. exact (go_NewVerifyStream_read_authentic c Hsha vd kr VV r KR input sg rdr L). Qed.
+
+Theorem C06_source_end_to_end_read_of_model (c : crypto) (vd : validator) (kr : sigring) (VV KR rd : gval)
+        (wire : bytes) (pk : bytes) (out : stream_out) :
+  verify_stream c vd kr wire = Ok (pk, out) ->
+  rdr_bytes rd = Some wire ->
+  (N.of_nat (List.length wire) < 18446744073709551616)%N ->
+  exists (h : header) (hh rest : bytes) (obj : gval),
+    verify_read_header c vd mt_attached wire = Ok (h, hh, rest) /\
+    fst (run_func2 (ext_NVS c vd kr) f_saltpack_NewVerifyStream [VV; rd; KR]) = ORet [g_spk pk; g_cr_new obj; VNil] /\
+    forall F bufs, (10 <= F)%nat -> (S (List.length wire) < F)%nat -> Forall (fun p : bytes => p <> []) bufs ->
+      let res := go_reads (gnc_ver c) F bufs (g_cr_new obj) 0 in
+      if ver12 (h_version h)
+      then reads_spec res (List.concat (so_chunks out)) (so_end out) /\
+           ((List.length (List.concat (so_chunks out)) + List.length wire + 2 <= List.length bufs)%nat -> reads_done res)
+      else bufs <> [] -> res = None.
+Proof. exact (go_NewVerifyStream_reads_of_model c vd kr VV KR rd wire pk out). Qed.
+
+Theorem C06_source_end_to_end_read_accepts_spec (c : crypto) (Hc : crypto_ok c) (p : S_sig) (kr : sigring) (vd : validator)
+        (VV KR rd : gval) :
+  sig_params_ok p ->
+  (len (mp_encode (S_sig_header_list c p S_mode_attached)) < 4294967296)%N ->
+  admits vd (ss_major p) (ss_minor p) -> In (ed_pub c (ss_sk p)) kr ->
+  rdr_bytes rd = Some (S_encode_attached c p) ->
+  (N.of_nat (List.length (S_encode_attached c p)) < 18446744073709551616)%N ->
+  exists obj : gval,
+    fst (run_func2 (ext_NVS c vd kr) f_saltpack_NewVerifyStream [VV; rd; KR]) = ORet [g_spk (ed_pub c (ss_sk p)); g_cr_new obj; VNil] /\
+    forall F bufs, (10 <= F)%nat -> (S (List.length (S_encode_attached c p)) < F)%nat -> Forall (fun b : bytes => b <> []) bufs ->
+      let res := go_reads (gnc_ver c) F bufs (g_cr_new obj) 0 in
+      reads_spec res (List.concat (ss_chunks p)) EOF /\
+      ((List.length (List.concat (ss_chunks p)) + List.length (S_encode_attached c p) + 2 <= List.length bufs)%nat ->
+       res = Some (Z.of_nat (List.length (List.concat (ss_chunks p))), VErr "io.EOF" [])).
+Proof. exact (go_NewVerifyStream_read_accepts_spec c Hc p kr vd VV KR rd). Qed.
+End C06_source_end_to_end_read.
+Print Assumptions C06_source_end_to_end_read_NewVerifyStream.
+Print Assumptions C06_source_end_to_end_read_of_model.
+Print Assumptions C06_source_end_to_end_read_accepts_spec.
+
